@@ -97,7 +97,7 @@ func concatOp(sc *Scenario, r *engine.PRNG, cfg world.InstCfg, tn string, size i
 // ---------------------------------------------------------------------------
 // C19
 
-var c19Types = []string{"Sym", "Sym", "SymBox", "SymBox", "RA", "Wide"}
+var c19Types = []string{"Sym", "Sym", "SymBox", "SymBox"}
 
 func GenC19(seed uint64, idx int) *Scenario {
 	r := engine.PRNG{S: engine.Mix(seed, 0xC19, uint64(idx))}
